@@ -144,6 +144,11 @@ class SimpleOperationExecutor:
             raise FileNotFoundError(
                 'The requested file does not exist: {:s}'.format(filename))
         except IsADirectoryError:
+            if not self.is_dir(filename, created_files):
+                # The directory is present in the real file system, but not in
+                # the virtual state of the file system
+                raise FileNotFoundError(
+                    'The requested file does not exist: {:s}'.format(filename))
             raise IsADirectoryError(
                 'Cannot read a directory: {:s}'.format(filename))
 
